@@ -21,7 +21,10 @@ CONSTANTS N,          \* lifecycler identities 1..N
           MaxClock,   \* bound of the virtual clock (model checking only)
           Cfgs,       \* set of configurations a lifecycler may be started with
           Cfg0,       \* set of initial assignments Inst -> Cfgs (model checking: a restart keeps the configuration)
-          Bud0        \* budgets of the environment actions (model checking only)
+          Bud0,       \* budgets of the environment actions (model checking only)
+          OwnEntryCheck \* TRUE: CheckReady requires the instance's own entry in the ring in both modes (the code
+                        \* since fix a84e2f3); FALSE: the earlier code, which looked only at the others when checking
+                        \* ring health (negative control: TLC refutes ReadyImpliesActive)
 
 Inst == 1..N
 Card(S) == Cardinality(S)
@@ -298,6 +301,7 @@ Return(i) ==
 Healthy(e) == clock - e.ts < HbTimeout
 ReadyCond(i) ==
     /\ L[i].toks # {} /\ kvok[i] /\ ~rnil
+    /\ OwnEntryCheck => Present(i)
     /\ IF cfg[i].health
        THEN /\ \A j \in Inst : Present(j) => (Healthy(ring[j]) /\ ring[j].st = "ACTIVE")
             /\ AllToks # {}
